@@ -241,8 +241,29 @@ def r_nowrite_on_reject(F, R):
                         stores.append((bi, t["line"]))
     R.floor("R-NOWRITE-ON-REJECT", "rejecting exits of Stride::push", len(false_blocks), 1)
     R.floor("R-NOWRITE-ON-REJECT", "state writes of Stride::push", len(stores), 1)
+    # result trees of the non-constant exits: a write is fine when it happens under a guard that
+    # makes that very result true (`let accepted = cond; if accepted { write } accepted`)
+    result_tree = {}
+    for bi in sorted(b.live_blocks()):
+        for si, st in enumerate(b.blocks[bi]["stmts"]):
+            if st["k"] == "assign" and st["place"]["l"] == 0 and not st["place"]["p"]:
+                rv = st["rv"]
+                if not (rv["k"] == "use" and rv["op"]["k"] == "const"):
+                    result_tree[bi] = trees(ctx, ctx.org.rvalue(rv, bi, si))
+
+    def guarded_true(sb, fb):
+        tr = result_tree.get(fb)
+        if tr is None:
+            return False
+        for f in facts_at(ctx, sb):
+            if tr[0] == "bin" and f[0] == tr[1] and f[1] == tr[2] and f[2] == tr[3]:
+                return True
+            if f[0] == "truthy" and f[1] == tr and f[2] is True:
+                return True
+        return False
     for fb in false_blocks:
-        bad = [(sb, ln) for (sb, ln) in stores if sb == fb or fb in reach_strict(b, sb)]
+        bad = [(sb, ln) for (sb, ln) in stores if (sb == fb or fb in reach_strict(b, sb))
+               and not guarded_true(sb, fb)]
         R.check("R-NOWRITE-ON-REJECT", b.label(), not bad,
                 construct="rejecting exit reached after a write through self",
                 where="%s (rejecting block bb%d)" % (b.where(), fb),
@@ -382,7 +403,9 @@ def forwards(b, ctx, name):
 
 
 def check_iter_next(F, R, iter_adt, mapping, first, second):
-    """next() = self.<first>.next() [.map] .or_else(|| self.<second>.next() [.map])"""
+    """next() consults the first iterator, and the second only once the first reported None"""
+    from expr import ret_alts, nobb, NONE
+    from r_bracket import walk
     nb = [b for b in F.bodies.values() if b.self_adt == iter_adt and b.name == "next"
           and b.trait == "Iterator"]
     if not nb:
@@ -393,36 +416,70 @@ def check_iter_next(F, R, iter_adt, mapping, first, second):
     c = Ctx(b)
     ffield = [k for k, v in mapping.items() if v == first][0]
     sfield = [k for k, v in mapping.items() if v == second][0]
-    ok = False
-    detail = ""
-    for (bi, t) in b.calls():
-        tag = callee_tag(t.get("callee"))
-        if tag == ("Option", "or_else"):
-            recv = operand_tree(c, t["args"][0])
-            # receiver derives from next(self.<ffield>)
-            r_ok = has_next_of(recv, b.key, ffield)
-            # closure: calls next on self.<sfield>
-            c_ok = False
-            for (cbi, si, ckey, ops) in closure_sites(b):
-                cb = F.body(ckey)
-                cc = Ctx(cb)
-                for (xbi, xt) in cb.calls():
-                    if callee_tag(xt.get("callee")) == ("Iterator", "next"):
-                        # upvar 0 captures self.<sfield>
-                        for (r, p) in cc.org.operand(xt["args"][0]):
-                            if r == ("arg", 1) and p and p[0].startswith("u:"):
-                                k = int(p[0][2:])
-                                cap = operand_tree(c, ops[k])
-                                if cap == ("place", b.key, ("arg", 1), ("f:" + sfield,)):
-                                    c_ok = True
-            ok = r_ok and c_ok
-            detail = "or_else receiver %s; fallback reads %s: %s" % (show(recv), sfield, c_ok)
+    fplace = ("place", b.key, ("arg", 1), ("f:" + ffield,))
+    splace = ("place", b.key, ("arg", 1), ("f:" + sfield,))
+    n1 = [(bi, t) for (bi, t) in b.calls() if callee_tag(t.get("callee")) == ("Iterator", "next")
+          and operand_tree(c, t["args"][0]) == fplace]
+    n2 = [(bi, t) for (bi, t) in b.calls() if callee_tag(t.get("callee")) == ("Iterator", "next")
+          and operand_tree(c, t["args"][0]) == splace]
+    why = []
+    ok = bool(n1)
+    if not n1:
+        why.append("never calls %s.next()" % ffield)
+    # second consulted directly in this body: must be under "first is exhausted"
+    for (bi, t) in n2:
+        facts = facts_at(c, bi)
+        exhausted = False
+        for f in facts:
+            x = f[1]
+            if f[0] == "variant" and x[0] == "call" and x[1] == ("Iterator", "next") and x[2] == (fplace,):
+                if f[2] == "0" or (isinstance(f[2], tuple) and f[2][0] == "not" and "1" in f[2][1]):
+                    exhausted = True
+            if f[0] == "truthy" and x[0] == "call" and x[1][1] in ("is_some", "is_none") and x[2] and \
+                    x[2][0][0] == "call" and x[2][0][1] == ("Iterator", "next") and x[2][0][2] == (fplace,):
+                if (x[1][1] == "is_some" and f[2] is False) or (x[1][1] == "is_none" and f[2] is True):
+                    exhausted = True
+        if not exhausted:
+            ok = False
+            why.append("%s.next() at line %s is not conditional on %s being exhausted" % (sfield, t["line"], ffield))
+    # second consulted in an or_else fallback of the first
+    in_closure = False
+    for (cbi, si, ckey, ops) in closure_sites(b):
+        cb = F.body(ckey)
+        cc = Ctx(cb)
+        for (xbi, xt) in cb.calls():
+            if callee_tag(xt.get("callee")) != ("Iterator", "next"):
+                continue
+            recv = operand_tree(cc, xt["args"][0])
+            cap = None
+            if recv[0] == "place" and recv[2] == ("arg", 1) and recv[3] and recv[3][0].startswith("u:"):
+                cap = operand_tree(c, ops[int(recv[3][0][2:])])
+            if cap == splace:
+                in_closure = True
+                # the closure must be the fallback of an or_else whose receiver comes from first.next()
+                good = False
+                for (bi, t) in b.calls():
+                    if callee_tag(t.get("callee")) in (("Option", "or_else"),) and len(t["args"]) == 2:
+                        clo = operand_tree(c, t["args"][1])
+                        rc = operand_tree(c, t["args"][0])
+                        if clo[0] == "agg" and clo[1] == "closure:" + ckey and has_next_of(rc, b.key, ffield):
+                            good = True
+                if not good:
+                    ok = False
+                    why.append("%s.next() in a closure that is not the or_else fallback of %s.next()" % (sfield, ffield))
+            elif cap == fplace:
+                ok = False
+                why.append("%s.next() called from a fallback closure" % ffield)
+    if not n2 and not in_closure:
+        ok = False
+        why.append("never consults %s" % sfield)
     # no reversing / skipping adaptors
     bad = [callee_tag(t.get("callee"))[1] for (_, t) in b.calls()
            if callee_tag(t.get("callee"))[1] in ("next_back", "rev", "skip", "step_by", "nth", "last")]
     ok = ok and not bad
     R.check("R-ITER", b.label(), ok, construct="next() yields %s then %s" % (first, second),
-            where=b.where(), detail=detail + ("; forbidden adaptors %s" % bad if bad else ""))
+            where=b.where(), detail="; ".join(why) or "first consulted always, second only when the first is exhausted"
+            + ("; forbidden adaptors %s" % bad if bad else ""))
 
 
 def has_next_of(t, key, fld):
